@@ -2781,8 +2781,24 @@ class C17(Oracle):
                 # other values of the same type for the parameters of the named components: a value is a
                 # value, also when it is 0, 0.0 or False
                 rr = random.Random(c['tweak'])
+                if rr.random() < 0.4:
+                    # the observation function written out as a visibility function wrapped by from_visibility
+                    of_ = data['observation_function']
+                    if of_['name'] in ('partially_occluded', 'raytracing', 'fully_transparent'):
+                        data['observation_function'] = {'name': 'from_visibility', 'visibility_function': {'name': of_['name']}, 'area': of_['area']}
                 nodes = list(data['reward_functions']) + [data['reset_function']]
                 done = []
+                for where_, lst in (('reward_functions', data['reward_functions']), ('transition_functions', data['transition_functions'])):
+                    for i_, node in enumerate(lst):
+                        items = list(node.items())
+                        if rr.random() < 0.5:
+                            rr.shuffle(items)  # the same entry with its parameters written in another order
+                            done.append((node['name'], 'order', [k_ for k_, _ in items]))
+                        if rr.random() < 0.3:
+                            items.insert(rr.randrange(len(items) + 1), ('parameter_nobody_accepts', rr.choice([1, 0, 'x'])))
+                            done.append((node['name'], 'ignored', 'parameter_nobody_accepts'))
+                        lst[i_] = dict(items)
+                nodes = list(data['reward_functions']) + [data['reset_function']]
                 for node in nodes:
                     for k_, v_ in list(node.items()):
                         if k_ == 'name' or rr.random() < 0.5:
@@ -2824,6 +2840,8 @@ class C17(Oracle):
                     e4 = factory_env_from_yaml(c['file'])
                 eh = envspec.hand_assemble(before)
             except Exception as e:
+                if 'tweak' in c:
+                    return [V('factory/build-not-repeatable-or-valid-description-rejected', f'{os.path.basename(c["file"])} with {done} / {before["observation_function"]}: {type(e).__name__}: {e}')]
                 return [V('factory/shipped-config-rejected', f'{os.path.basename(c["file"])}: {type(e).__name__}: {e}')]
             if e3 is e4 or e1 is e2:
                 out.append(V('factory/second-build-returns-the-same-environment', f'{os.path.basename(c["file"])}: two builds of one description must be independent environments'))
